@@ -606,6 +606,8 @@ func (c *UDPConn) ReadFromUDP(b []byte) (int, *net.UDPAddr, error) {
 
 // ReadFromUDPAddrPort: as the real one, a socket bound to the wildcard address is a dual-stack socket and reports IPv4
 // peers as IPv4-mapped IPv6 addresses (callers must Unmap); a socket bound to an IPv4 address reports plain IPv4.
+//
+//go:norace
 func (c *UDPConn) ReadFromUDPAddrPort(b []byte) (int, netip.AddrPort, error) {
 	n, a, err := c.ReadFromUDP(b)
 	if err != nil || a == nil {
